@@ -21,6 +21,15 @@ class Def:
     def lineno(self):
         return self.node.lineno if self.node is not None else 0
 
+    @property
+    def base(self):
+        """the expression this definition takes its value from (the iterated /
+        unpacked expression for loop targets and tuple targets)"""
+        v = self.value
+        while isinstance(v, tuple):
+            v = v[1]
+        return v
+
     def __repr__(self):
         v = ast.unparse(self.value) if isinstance(self.value, ast.AST) else self.value
         return '<Def %s@%s %s=%s>' % (self.kind, self.lineno, self.name, v)
